@@ -323,6 +323,18 @@ def rule_ring(ctx, rep):
         tests = pat.loads(w, glob="defer_thread_stop") + pat.calls(w, "rcu_defer_num_callbacks")
         pat.require(len(tests) >= 2, "%s: wait_defer tests" % fl)
         rep.must_pass("C13.sleep", fl + ".dec≺FULL≺tests", w, dec, tests, lambda i: mm.is_full(i) and i not in dec, what="FULL barrier between announcing sleep (futex dec) and testing stop / queue heads (store→load)")
+        # the sleep re-check must read the word the producer publishes (queue head), not a private snapshot
+        nc = m.fn("rcu_defer_num_callbacks")
+        if nc is None:
+            raise Broken("%s: rcu_defer_num_callbacks vanished" % fl)
+        rep.touch(nc)
+        pub = set(pat.last_field(s.d["ap"]) for s in head_st)
+        rd = set(pat.last_field(l.d["ap"]) for l in nc.all_insts() if l.op == "load" and pat.last_field(l.d["ap"]) and pat.last_field(l.d["ap"]).startswith("defer_queue."))
+        rep.check(pub <= rd, "C13.sleep", fl + ".recheck-reads-published-word", "the reclaimer's sleep re-check reads %s, the word defer_rcu publishes before testing the futex" % sorted(pub),
+                  "the reclaimer decides to sleep from %s but defer_rcu publishes %s: an entry queued while the reclaimer is busy is neither seen by the re-check nor signalled (futex is 0)"
+                  % (sorted(rd), sorted(pub)), [nc.name])
+        used = [l for l in nc.all_insts() if l.op == "load" and pat.last_field(l.d["ap"]) == "defer_queue.head"]
+        rep.check(all(l.d["order"] != "na" for l in used) and bool(used), "C13.sleep", fl + ".recheck-atomic-head", "head is read atomically by the re-check", "head read non-atomically / not at all", [nc.name])
         for k, ws in enumerate(waitloop.wait_sites(w)):
             waitloop.check(rep, "C13.sleep", "%s.wait_defer.site%d" % (fl, k), w, ws)
         pat.require(waitloop.wait_sites(w), "%s: no futex wait in wait_defer" % fl)
